@@ -35,6 +35,7 @@ utf8enc(unsigned char *s, uint_least32_t c)
 size_t
 utf8dec(uint_least32_t *c, const unsigned char *s, size_t n)
 {
+	static const uint_least32_t min[] = {0, 0, 0x80, 0x800, 0x10000};
 	size_t i, l;
 	unsigned char b;
 	uint_least32_t x;
@@ -64,7 +65,7 @@ utf8dec(uint_least32_t *c, const unsigned char *s, size_t n)
 			return -1;
 		x = x << 6 | b & 0x3f;
 	}
-	if (x >= 0x110000 || x - 0xd800 < 0x0200)
+	if (x < min[l] || x >= 0x110000 || x - 0xd800 < 0x0800)
 		return -1;
 	*c = x;
 	return l;
